@@ -368,13 +368,19 @@ theorem stepPut_ok (s : St) (k : Nat) (h : (stepPut s k).2 = .ok) :
 
 /-! ## children: catalogue well-formedness, `J` (children of a Deleted parent are tombstoned), `K` -/
 
-/-- catalogue well-formedness and the child / mirror invariants -/
+/-- catalogue well-formedness and the child / mirror invariants.
+`J`: for a bound child `c` of `p`: (a) `p` Deleted ⇒ `c` tombstoned; (b) `c` still NotDeleted ⇒ the tree of `p`
+is stored (so a worker pass whose storage writes fail never marks `p` Deleted behind `c`'s back).
+`N`: an entry without stored tree is a tombstone or a legacy entry. `LR`: legacy entries have no bound
+children (the generator's restriction, `LegacyOK`). -/
 structure InvC (s : St) : Prop where
   wf : ∀ a b, s.parent a = some b → s.parent b = none
-  J : ∀ c p, c < s.n → s.parent c = some p → s.entry c = true → s.bound c = true → s.entry p = true →
-        s.status p = 2 → 1 ≤ s.status c
+  J : ∀ c p, c < s.n → s.parent c = some p → s.entry c = true → s.bound c = true →
+        (s.entry p = true → s.status p = 2 → 1 ≤ s.status c) ∧ (s.status c = 0 → s.stored p = true)
   K : ∀ p, s.parent p = none → s.entry p = true → 1 ≤ s.status p → s.mirror p ≠ 0
   mle : ∀ k, s.mirror k ≤ 2
+  N : ∀ k, s.entry k = true → s.stored k = false → s.legacy k = false → 1 ≤ s.status k
+  LR : ∀ k, s.legacy k = true → ∀ c, s.parent c ≠ some k
 
 theorem invC_init (n : Nat) (p : Nat → Option Nat) (hw : ∀ a b, p a = some b → p b = none) : InvC (St.init n p) := by
   constructor
@@ -382,23 +388,25 @@ theorem invC_init (n : Nat) (p : Nat → Option Nat) (hw : ∀ a b, p a = some b
   all_goals (intros; simp_all [St.init])
 
 theorem invC_headsUpdate (s : St) (k : Nat) (h : InvC s) : InvC (headsUpdate s k) :=
-  ⟨h.wf, h.J, h.K, h.mle⟩
+  ⟨h.wf, h.J, h.K, h.mle, h.N, h.LR⟩
 
 theorem invC_addOne (s : St) (k : Nat) (hi : Inv s) (h : InvC s) : InvC (addOne s k) := by
   obtain ⟨h1, h2, h3, h4, h5, h6, h7, h8⟩ := hi
-  obtain ⟨c1, c2, c3, c4⟩ := h
+  obtain ⟨c1, c2, c3, c4, c5, c6⟩ := h
   unfold addOne
   split
-  · exact ⟨c1, c2, c3, c4⟩
+  · exact ⟨c1, c2, c3, c4, c5, c6⟩
   · constructor
     · exact c1
-    · intro c p; simp only [setStatus, upd]; grind
+    · intro c p; have := c2 c p; simp only [setStatus, upd]; grind
     · intro p; simp only [setStatus, upd]; grind
     · intro j; simp only [setStatus, upd]; grind
+    · intro j; have := c5 j; simp only [setStatus, upd]; grind
+    · exact c6
 
 theorem invC_orphanOne (s : St) (k : Nat) (hi : Inv s) (h : InvC s) : InvC (orphanOne s k) := by
   obtain ⟨h1, h2, h3, h4, h5, h6, h7, h8⟩ := hi
-  obtain ⟨c1, c2, c3, c4⟩ := h
+  obtain ⟨c1, c2, c3, c4, c5, c6⟩ := h
   unfold orphanOne
   by_cases hc : orphanCond s k = true
   · have hz : s.status k = 0 := by
@@ -407,66 +415,95 @@ theorem invC_orphanOne (s : St) (k : Nat) (hi : Inv s) (h : InvC s) : InvC (orph
     simp only [hc, if_true]
     constructor
     · exact c1
-    · intro c p; simp only [setStatus, upd]; grind
+    · intro c p; have := c2 c p; simp only [setStatus, upd]; grind
     · intro p; simp only [setStatus, upd]; grind
     · intro j; simp only [setStatus, upd]; grind
-  · simp only [hc]; exact ⟨c1, c2, c3, c4⟩
+    · intro j; have := c5 j; simp only [setStatus, upd]; grind
+    · exact c6
+  · simp only [hc]; exact ⟨c1, c2, c3, c4, c5, c6⟩
 
-theorem invC_createTx (s : St) (k : Nat) (hi : Inv s) (h : InvC s) (hk : s.tomb k = false) : InvC (createTx s k) := by
+theorem createCheck_parent (s : St) (k p : Nat) (h : createCheck s k = .ok) (hp : s.parent k = some p) :
+    s.entry p = true := by
+  unfold createCheck at h
+  split at h
+  · cases h
+  · simp only [hp] at h
+    by_cases he : s.entry p = true
+    · exact he
+    · simp [he] at h
+
+theorem invC_createTx (s : St) (k : Nat) (hi : Inv s) (h : InvC s) (hk : s.tomb k = false)
+    (hpe : ∀ p, s.parent k = some p → s.entry p = true) : InvC (createTx s k) := by
   have hz := (tomb_false_iff s k hi).1 hk
   obtain ⟨h1, h2, h3, h4, h5, h6, h7, h8⟩ := hi
-  obtain ⟨c1, c2, c3, c4⟩ := h
+  obtain ⟨c1, c2, c3, c4, c5, c6⟩ := h
   unfold createTx
   split
   · rename_i p hp
     have hpk : p ≠ k := by intro e; subst e; have := c1 _ _ hp; simp_all
+    have hep := hpe p hp
+    have hlp : s.legacy p = false := by
+      cases hl : s.legacy p
+      · rfl
+      · exact absurd hp (c6 p hl k)
+    have hnp := c5 p hep
     split
     · rename_i ht
       constructor
       · exact c1
-      · intro c q; simp only [setStatus, createBase, upd]; grind
+      · intro c q; have := c2 c q; simp only [setStatus, createBase, upd]; grind
       · intro q; simp only [setStatus, createBase, upd]; grind
       · exact c4
+      · intro j; have := c5 j; simp only [setStatus, createBase, upd]; grind
+      · intro j; have := c6 j; simp only [setStatus, createBase, upd]; grind
     · rename_i ht
       simp only [St.tomb, createBase, upd, hpk, if_false, Bool.and_eq_true, decide_eq_true_eq] at ht
       constructor
       · exact c1
-      · intro c q; simp only [createBase, upd]; grind
+      · intro c q; have := c2 c q; simp only [createBase, upd]; grind
       · intro q; simp only [createBase, upd]; grind
       · exact c4
+      · intro j; have := c5 j; simp only [createBase, upd]; grind
+      · intro j; have := c6 j; simp only [createBase, upd]; grind
   · rename_i hp
     constructor
     · exact c1
-    · intro c q; simp only [createBase, upd]; grind
+    · intro c q; have := c2 c q; simp only [createBase, upd]; grind
     · intro q; simp only [createBase, upd]; grind
     · exact c4
+    · intro j; have := c5 j; simp only [createBase, upd]; grind
+    · intro j; have := c6 j; simp only [createBase, upd]; grind
 
 theorem invC_restartMem (s : St) (hi : Inv s) (h : InvC s) : InvC (restartMem s) := by
   obtain ⟨h1, h2, h3, h4, h5, h6, h7, h8⟩ := hi
-  obtain ⟨c1, c2, c3, c4⟩ := h
+  obtain ⟨c1, c2, c3, c4, c5, c6⟩ := h
   constructor
   · exact c1
   · exact c2
   · intro p; simp only [restartMem]; grind
   · intro j; simp only [restartMem]; grind
+  · exact c5
+  · exact c6
 
+/-- marking an id WITHOUT stored tree Deleted keeps the whole invariant: by `J`(b) none of its bound children
+is still NotDeleted -/
+theorem invC_deleteOne_unstored (s : St) (k : Nat) (h : InvC s) (hs : s.stored k = false) : InvC (deleteOne s k) := by
+  obtain ⟨c1, c2, c3, c4, c5, c6⟩ := h
+  constructor
+  · exact c1
+  · intro c p; have := c2 c p; simp only [deleteOne, setStatus, upd]; grind
+  · intro p; simp only [deleteOne, setStatus, upd]; grind
+  · intro j; simp only [deleteOne, setStatus, upd]; grind
+  · intro j; have := c5 j; simp only [deleteOne, setStatus, upd]; grind
+  · exact c6
 
 /-- `J` for every parent except `k` -/
 def Jex (s : St) (k : Nat) : Prop :=
-  ∀ c p, p ≠ k → c < s.n → s.parent c = some p → s.entry c = true → s.bound c = true → s.entry p = true →
-    s.status p = 2 → 1 ≤ s.status c
+  ∀ c p, p ≠ k → c < s.n → s.parent c = some p → s.entry c = true → s.bound c = true →
+    (s.entry p = true → s.status p = 2 → 1 ≤ s.status c) ∧ (s.status c = 0 → s.stored p = true)
 
 /-- the parts of the state the worker never touches -/
 def SameCat (s s' : St) : Prop := s'.n = s.n ∧ s'.parent = s.parent ∧ s'.bound = s.bound
-
-theorem deleteOne_root (s : St) (k : Nat) (h : InvC s) :
-    Jex (deleteOne s k) k ∧ (∀ p, (deleteOne s k).parent p = none → (deleteOne s k).entry p = true →
-      1 ≤ (deleteOne s k).status p → (deleteOne s k).mirror p ≠ 0) ∧ (∀ j, (deleteOne s k).mirror j ≤ 2) := by
-  obtain ⟨c1, c2, c3, c4⟩ := h
-  refine ⟨?_, ?_, ?_⟩
-  · intro c p; simp only [deleteOne, setStatus, upd]; grind
-  · intro p; simp only [deleteOne, setStatus, upd]; grind
-  · intro j; simp only [deleteOne, setStatus, upd]; grind
 
 /-- one iteration of `deleteBoundChildren` -/
 def childStep (s : St) (c : Nat) : St := if 2 ≤ s.status c then s else deleteOne s c
@@ -476,12 +513,22 @@ structure Mid (s : St) (k : Nat) : Prop where
   jex : Jex s k
   K : ∀ p, s.parent p = none → s.entry p = true → 1 ≤ s.status p → s.mirror p ≠ 0
   mle : ∀ j, s.mirror j ≤ 2
+  N : ∀ k, s.entry k = true → s.stored k = false → s.legacy k = false → 1 ≤ s.status k
+  LR : ∀ k, s.legacy k = true → ∀ c, s.parent c ≠ some k
+
+theorem deleteOne_root (s : St) (k : Nat) (h : InvC s) : Mid (deleteOne s k) k := by
+  obtain ⟨c1, c2, c3, c4, c5, c6⟩ := h
+  refine ⟨c1, ?_, ?_, ?_, ?_, c6⟩
+  · intro c p; have := c2 c p; simp only [deleteOne, setStatus, upd]; grind
+  · intro p; simp only [deleteOne, setStatus, upd]; grind
+  · intro j; simp only [deleteOne, setStatus, upd]; grind
+  · intro j; have := c5 j; simp only [deleteOne, setStatus, upd]; grind
 
 theorem mid_childStep (s : St) (k c : Nat) (hc : s.parent c = some k) (h : Mid s k) : Mid (childStep s c) k := by
-  obtain ⟨c1, c2, c3, c4⟩ := h
+  obtain ⟨c1, c2, c3, c4, c5, c6⟩ := h
   unfold childStep
   split
-  · exact ⟨c1, c2, c3, c4⟩
+  · exact ⟨c1, c2, c3, c4, c5, c6⟩
   unfold Jex at c2
   · constructor
     · exact c1
@@ -491,6 +538,8 @@ theorem mid_childStep (s : St) (k c : Nat) (hc : s.parent c = some k) (h : Mid s
       grind
     · intro p; simp only [deleteOne, setStatus, upd]; grind
     · intro j; simp only [deleteOne, setStatus, upd]; grind
+    · intro j; have := c5 j; simp only [deleteOne, setStatus, upd]; grind
+    · exact c6
 
 theorem childStep_status (s : St) (c : Nat) : 2 ≤ (childStep s c).status c := by
   unfold childStep; split
@@ -539,8 +588,7 @@ theorem fold_children (k : Nat) : ∀ (l : List Nat) (s : St), Inv s → Mid s k
 /-- one iteration of the worker loop (`deleteOne k` then its bound children) re-establishes `InvC` -/
 theorem invC_runUnit (s : St) (k : Nat) (hi : Inv s) (h : InvC s) : InvC (deleteChildren (deleteOne s k) k) := by
   have g := good_deleteOne s k hi
-  obtain ⟨r1, r2, r3⟩ := deleteOne_root s k h
-  have hm : Mid (deleteOne s k) k := ⟨h.wf, r1, r2, r3⟩
+  have hm := deleteOne_root s k h
   have hl : ∀ c ∈ childrenOf (deleteOne s k) k, (deleteOne s k).parent c = some k := by
     intro c hc
     simp only [childrenOf, List.mem_filter, Bool.and_eq_true, beq_iff_eq] at hc
@@ -550,8 +598,8 @@ theorem invC_runUnit (s : St) (k : Nat) (hi : Inv s) (h : InvC s) : InvC (delete
   obtain ⟨f1, f2, f3, f4, f5, f6⟩ := f
   have hdef : deleteChildren (deleteOne s k) k = (childrenOf (deleteOne s k) k).foldl childStep (deleteOne s k) := rfl
   rw [hdef]
-  refine ⟨f1.wf, ?_, f1.K, f1.mle⟩
-  intro c p hc hp he hb hep hsp
+  refine ⟨f1.wf, ?_, f1.K, f1.mle, f1.N, f1.LR⟩
+  intro c p hc hp he hb
   by_cases hpk : p = k
   · subst hpk
     have hin : c ∈ childrenOf (deleteOne s p) p := by
@@ -561,8 +609,9 @@ theorem invC_runUnit (s : St) (k : Nat) (hi : Inv s) (h : InvC s) : InvC (delete
       rcases f6 c he with e | e
       · exact e
       · simp only [childrenOf, List.mem_filter, Bool.and_eq_true] at e; exact e.2.1.1
-    exact Nat.le_trans (by omega) (f2 c hin)
-  · exact f1.jex c p hpk hc hp he hb hep hsp
+    have h2 := f2 c hin
+    exact ⟨fun _ _ => by omega, fun h0 => by omega⟩
+  · exact f1.jex c p hpk hc hp he hb
 
 
 /-! ## `InvC` through every step -/
@@ -575,13 +624,16 @@ theorem both_foldl {α} (f : St → α → St) (hf : ∀ s a, Both s → Both (f
   | a :: l, s, h => both_foldl f hf l (f s a) (hf s a h)
 
 theorem invC_same (s s' : St) (h : InvC s) (e1 : s'.n = s.n) (e2 : s'.parent = s.parent) (e3 : s'.entry = s.entry)
-    (e4 : s'.status = s.status) (e5 : s'.bound = s.bound) (e6 : s'.mirror = s.mirror) : InvC s' := by
-  obtain ⟨c1, c2, c3, c4⟩ := h
+    (e4 : s'.status = s.status) (e5 : s'.bound = s.bound) (e6 : s'.mirror = s.mirror)
+    (e7 : s'.stored = s.stored) (e8 : s'.legacy = s.legacy) : InvC s' := by
+  obtain ⟨c1, c2, c3, c4, c5, c6⟩ := h
   constructor
   · rw [e2]; exact c1
-  · rw [e1, e2, e3, e4, e5]; exact c2
+  · rw [e1, e2, e3, e4, e5, e7]; exact c2
   · rw [e2, e3, e4, e6]; exact c3
   · rw [e6]; exact c4
+  · rw [e3, e4, e7, e8]; exact c5
+  · rw [e2, e8]; exact c6
 
 theorem both_createFetched (s : St) (k : Nat) (h : Both s) : Both (createFetched s k).1 := by
   refine ⟨(good_createFetched s k h.1).1, ?_⟩
@@ -591,8 +643,8 @@ theorem both_createFetched (s : St) (k : Nat) (h : Both s) : Both (createFetched
   · split
     · rename_i hc
       have ht := createCheck_ok s k hc
-      have c := invC_createTx s k h.1 h.2 ht
-      exact invC_same _ _ (invC_headsUpdate _ k c) rfl rfl rfl rfl rfl rfl
+      have c := invC_createTx s k h.1 h.2 ht (fun p hp => createCheck_parent s k p hc hp)
+      exact invC_same _ _ (invC_headsUpdate _ k c) rfl rfl rfl rfl rfl rfl rfl rfl
     · exact h.2
 
 theorem both_stepPut (s : St) (k : Nat) (h : Both s) : Both (stepPut s k).1 := by
@@ -605,14 +657,15 @@ theorem both_stepPut (s : St) (k : Nat) (h : Both s) : Both (stepPut s k).1 := b
     · split
       · rename_i hc
         have ht := createCheck_ok s k hc
-        exact invC_same _ _ (invC_createTx s k h.1 h.2 ht) rfl rfl rfl rfl rfl rfl
+        exact invC_same _ _ (invC_createTx s k h.1 h.2 ht (fun p hp => createCheck_parent s k p hc hp))
+          rfl rfl rfl rfl rfl rfl rfl rfl
       · exact h.2
 
 theorem both_getLocal (s : St) (k : Nat) (h : Both s) (r : St × Res) (hr : getLocal s k = some r) : Both r.1 := by
   refine ⟨(good_getLocal s k h.1 r hr).1, ?_⟩
   unfold getLocal at hr
   split at hr
-  · cases hr; exact invC_same _ _ h.2 rfl rfl rfl rfl rfl rfl
+  · cases hr; exact invC_same _ _ h.2 rfl rfl rfl rfl rfl rfl rfl rfl
   · split at hr
     · cases hr; exact h.2
     · cases hr
@@ -639,7 +692,7 @@ theorem both_applyView (s : St) (v : Option View) (h : Both s) : Both (applyView
   · exact h
   · split
     · rename_i st _
-      exact both_addAll _ _ ⟨(good_ss s (some st) h.1).1, invC_same _ _ h.2 rfl rfl rfl rfl rfl rfl⟩
+      exact both_addAll _ _ ⟨(good_ss s (some st) h.1).1, invC_same _ _ h.2 rfl rfl rfl rfl rfl rfl rfl rfl⟩
     · exact h
 
 theorem both_stepRun (s : St) (h : Both s) : Both (stepRun s) := by
@@ -649,29 +702,74 @@ theorem both_stepRun (s : St) (h : Both s) : Both (stepRun s) := by
   exact ⟨((good_deleteOne s k hs.1).trans (good_deleteChildren _ k (good_deleteOne s k hs.1).1)).1,
          invC_runUnit s k hs.1 hs.2⟩
 
+/-! ### a worker pass whose storage writes fail keeps the child invariant -/
+
+theorem both_setLive (s : St) (k : Nat) (h : Both s) (hs : s.stored k = true) :
+    Both { s with live := upd s.live k true } :=
+  ⟨(good_setLive s k h.1 hs).1, invC_same _ _ h.2 rfl rfl rfl rfl rfl rfl rfl rfl⟩
+
+theorem both_faultOne (s : St) (k : Nat) (h : Both s) : Both (faultOne s k) := by
+  unfold faultOne
+  split
+  · rename_i hs; exact both_setLive s k h hs
+  · rename_i hs
+    exact ⟨(good_deleteOne s k h.1).1, invC_deleteOne_unstored s k h.2 (by simpa using hs)⟩
+
+theorem both_faultChildren (s : St) (p : Nat) (h : Both s) : Both (faultChildren s p) := by
+  unfold faultChildren
+  refine both_foldl _ ?_ _ s h
+  intro s c hs
+  split
+  · exact hs
+  · exact both_faultOne s c hs
+
+theorem both_stepRunFault (s : St) (h : Both s) : Both (stepRunFault s) := by
+  unfold stepRunFault
+  refine both_foldl _ ?_ _ s h
+  intro s k hs
+  split
+  · rename_i hst; exact both_setLive s k hs hst
+  · rename_i hst
+    exact both_faultChildren _ k
+      ⟨(good_deleteOne s k hs.1).1, invC_deleteOne_unstored s k hs.2 (by simpa using hst)⟩
+
 /-! ### restart re-establishes `J` by itself (orphan scan), whatever a crash left behind -/
 
 /-- what `deletionstate.Run` guarantees of the reloaded mirror -/
 def M2 (s : St) : Prop := ∀ p, s.entry p = true → s.status p = 2 → s.mirror p = 2
 
-/-- `J` for one child -/
+/-- `J`(a) for one child -/
 def Jc (s : St) (c : Nat) : Prop :=
   ∀ p, s.parent c = some p → s.entry c = true → s.bound c = true → s.entry p = true → s.status p = 2 → 1 ≤ s.status c
 
-/-- `InvC` without `J` -/
+/-- `J`(b) weakened by "… or the parent is Deleted" (what a crash right after the parent's deletion leaves) -/
+def Ow (s : St) : Prop :=
+  ∀ c p, c < s.n → s.parent c = some p → s.entry c = true → s.bound c = true → s.status c = 0 →
+    s.stored p = true ∨ (s.entry p = true ∧ s.status p = 2)
+
+/-- `InvC` with `J` weakened to `Ow` -/
 structure InvK (s : St) : Prop where
   wf : ∀ a b, s.parent a = some b → s.parent b = none
   K : ∀ p, s.parent p = none → s.entry p = true → 1 ≤ s.status p → s.mirror p ≠ 0
   mle : ∀ k, s.mirror k ≤ 2
+  N : ∀ k, s.entry k = true → s.stored k = false → s.legacy k = false → 1 ≤ s.status k
+  LR : ∀ k, s.legacy k = true → ∀ c, s.parent c ≠ some k
+  ow : Ow s
 
-theorem InvC.toK {s : St} (h : InvC s) : InvK s := ⟨h.wf, h.K, h.mle⟩
+theorem InvC.toK {s : St} (h : InvC s) : InvK s :=
+  ⟨h.wf, h.K, h.mle, h.N, h.LR, fun c p hc hp he hb h0 => Or.inl ((h.J c p hc hp he hb).2 h0)⟩
 
-theorem invK_deleteOne (s : St) (k : Nat) (h : InvC s) : InvK (deleteOne s k) :=
-  ⟨h.wf, (deleteOne_root s k h).2.1, (deleteOne_root s k h).2.2⟩
+theorem invK_deleteOne (s : St) (k : Nat) (h : InvC s) : InvK (deleteOne s k) := by
+  have m := deleteOne_root s k h
+  refine ⟨m.wf, m.K, m.mle, m.N, m.LR, ?_⟩
+  intro c p hc hp he hb h0
+  by_cases hpk : p = k
+  · subst hpk; right; simp [deleteOne, setStatus, upd]
+  · exact Or.inl ((m.jex c p hpk hc hp he hb).2 h0)
 
 theorem invK_restartMem (s : St) (h : InvK s) : InvK (restartMem s) ∧ M2 (restartMem s) := by
-  obtain ⟨c1, c3, c4⟩ := h
-  refine ⟨⟨c1, ?_, ?_⟩, ?_⟩
+  obtain ⟨c1, c3, c4, c5, c6, c7⟩ := h
+  refine ⟨⟨c1, ?_, ?_, c5, c6, c7⟩, ?_⟩
   · intro p; simp only [restartMem]; grind
   · intro j; simp only [restartMem]; grind
   · intro p; simp only [restartMem]; grind
@@ -681,15 +779,19 @@ theorem orphanCond_status (s : St) (c : Nat) (h : orphanCond s c = true) : s.sta
   exact h.1.1.1
 
 theorem invK_orphanOne (s : St) (a : Nat) (h : InvK s) : InvK (orphanOne s a) := by
-  obtain ⟨c1, c3, c4⟩ := h
+  obtain ⟨c1, c3, c4, c5, c6, c7⟩ := h
   unfold orphanOne
   by_cases hc : orphanCond s a = true
   · have hz := orphanCond_status s a hc
+    have hea : s.entry a = true := by
+      simp only [orphanCond, Bool.and_eq_true] at hc; exact hc.1.1.2
     simp only [hc, if_true]
-    refine ⟨c1, ?_, ?_⟩
+    refine ⟨c1, ?_, ?_, ?_, c6, ?_⟩
     · intro p; simp only [setStatus, upd]; grind
     · intro j; simp only [setStatus, upd]; grind
-  · simp only [hc]; exact ⟨c1, c3, c4⟩
+    · intro j; have := c5 j; simp only [setStatus, upd]; grind
+    · intro c p; have := c7 c p; simp only [setStatus, upd]; grind
+  · simp only [hc]; exact ⟨c1, c3, c4, c5, c6, c7⟩
 
 theorem orphanOne_M2 (s : St) (a : Nat) (h : M2 s) : M2 (orphanOne s a) := by
   unfold orphanOne
@@ -741,8 +843,8 @@ theorem orphanFold : ∀ (l : List Nat) (s : St), M2 s → InvK s →
     · subst e; exact i3 c (orphanOne_Jc_self s c hm)
     · exact i4 c e
 
-/-- restart from ANY state with a sane mirror bookkeeping (in particular the one a crash inside a worker
-pass leaves) yields the full child invariant -/
+/-- restart from ANY state with a sane bookkeeping (in particular the one a crash inside a worker pass
+leaves) yields the full child invariant -/
 theorem both_restart_of_invK (s : St) (v : Option View) (hi : Inv s) (hk : InvK s) : Both (stepRestart s v).1 := by
   unfold stepRestart
   have g1 := good_restartMem s hi
@@ -752,13 +854,17 @@ theorem both_restart_of_invK (s : St) (v : Option View) (hi : Inv s) (hk : InvK 
   simp only at f
   obtain ⟨_, f2, _, f4, f5⟩ := f
   have c2 : InvC ((List.range s.n).foldl orphanOne (restartMem s)) := by
-    refine ⟨f2.wf, ?_, f2.K, f2.mle⟩
-    intro c p hc
+    refine ⟨f2.wf, ?_, f2.K, f2.mle, f2.N, f2.LR⟩
+    intro c p hc hp he hb
     have hc' : c ∈ List.range s.n := by
       rw [f5] at hc; exact List.mem_range.2 hc
-    exact f4 c hc' p
+    have ja := f4 c hc' p hp he hb
+    refine ⟨ja, fun h0 => ?_⟩
+    rcases f2.ow c p hc hp he hb h0 with h | ⟨h1, h2⟩
+    · exact h
+    · have := ja h1 h2; omega
   have b3 := both_applyView _ v ⟨g2.1, c2⟩
-  exact ⟨(good_fillDiff _ b3.1).1, invC_same _ _ b3.2 rfl rfl rfl rfl rfl rfl⟩
+  exact ⟨(good_fillDiff _ b3.1).1, invC_same _ _ b3.2 rfl rfl rfl rfl rfl rfl rfl rfl⟩
 
 theorem both_stepRestart (s : St) (v : Option View) (h : Both s) : Both (stepRestart s v).1 :=
   both_restart_of_invK s v h.1 h.2.toK
@@ -769,23 +875,32 @@ theorem both_stepCrash (s : St) (k : Nat) (v : Option View) (h : Both s) : Both 
   · exact both_restart_of_invK _ v (good_deleteOne s k h.1).1 (invK_deleteOne s k h.2)
   · exact h
 
-theorem invC_stepLegacy (s : St) (k : Nat) (hi : Inv s) (h : InvC s) : InvC (stepLegacy s k).1 := by
+/-- the generator's restriction: a legacy entry is only ever written for an id that no bound child names as
+its parent -/
+def LegacyOK (s : St) : Op → Prop
+  | .legacy k => ∀ c, s.parent c ≠ some k
+  | _ => True
+
+theorem invC_stepLegacy (s : St) (k : Nat) (hi : Inv s) (h : InvC s) (hl : ∀ c, s.parent c ≠ some k) :
+    InvC (stepLegacy s k).1 := by
   obtain ⟨h1, h2, h3, h4, h5, h6, h7, h8⟩ := hi
-  obtain ⟨c1, c2, c3, c4⟩ := h
+  obtain ⟨c1, c2, c3, c4, c5, c6⟩ := h
   unfold stepLegacy
   split
-  · exact ⟨c1, c2, c3, c4⟩
+  · exact ⟨c1, c2, c3, c4, c5, c6⟩
   · constructor
     · exact c1
-    · intro c p; simp only [upd]; grind
+    · intro c p; have := c2 c p; have := hl c; simp only [upd]; grind
     · intro p; simp only [upd]; grind
     · exact c4
+    · intro j; have := c5 j; simp only [upd]; grind
+    · intro j; have := c6 j; simp only [upd]; grind
 
-/-- every step except a storage-faulted worker pass keeps the child invariant -/
-theorem both_step (s : St) (op : Op) (hop : op ≠ .runFault) (h : Both s) : Both (step s op).1 := by
+/-- every step keeps the child invariant (storage-faulted worker passes and crashes included) -/
+theorem both_step (s : St) (op : Op) (hop : LegacyOK s op) (h : Both s) : Both (step s op).1 := by
   cases op with
-  | runFault => exact absurd rfl hop
-  | legacy k => exact ⟨(good_stepLegacy s k h.1).1, invC_stepLegacy s k h.1 h.2⟩
+  | runFault => exact both_stepRunFault s h
+  | legacy k => exact ⟨(good_stepLegacy s k h.1).1, invC_stepLegacy s k h.1 h.2 hop⟩
   | put k => exact both_stepPut s k h
   | fetch k =>
     simp only [step, stepFetch]
@@ -796,13 +911,13 @@ theorem both_step (s : St) (op : Op) (hop : op ≠ .runFault) (h : Both s) : Bot
     simp only [step, stepFStart]
     split
     · rename_i r hr; exact both_getLocal s k h r hr
-    · exact ⟨(inv_fetching s _ h.1).1, invC_same _ _ h.2 rfl rfl rfl rfl rfl rfl⟩
+    · exact ⟨(inv_fetching s _ h.1).1, invC_same _ _ h.2 rfl rfl rfl rfl rfl rfl rfl rfl⟩
   | ffin =>
     simp only [step, stepFFin]
     split
     · exact h
     · rename_i k _
-      exact both_createFetched _ k ⟨(inv_fetching s none h.1).1, invC_same _ _ h.2 rfl rfl rfl rfl rfl rfl⟩
+      exact both_createFetched _ k ⟨(inv_fetching s none h.1).1, invC_same _ _ h.2 rfl rfl rfl rfl rfl rfl rfl rfl⟩
   | edit k =>
     simp only [step, stepEdit]
     have g := both_getCached s k false h
@@ -835,14 +950,19 @@ theorem both_step (s : St) (op : Op) (hop : op ≠ .runFault) (h : Both s) : Bot
           · simp only
             refine (both_applyView _ v ⟨?_, ?_⟩).2
             · exact (good_recs s _ h.1).1
-            · exact invC_same _ _ h.2 rfl rfl rfl rfl rfl rfl
-  | record r => exact ⟨(good_recs s _ h.1).1, invC_same _ _ h.2 rfl rfl rfl rfl rfl rfl⟩
+            · exact invC_same _ _ h.2 rfl rfl rfl rfl rfl rfl rfl rfl
+  | record r => exact ⟨(good_recs s _ h.1).1, invC_same _ _ h.2 rfl rfl rfl rfl rfl rfl rfl rfl⟩
 
-theorem both_run : ∀ (ops : List Op) (s : St), (∀ op ∈ ops, op ≠ .runFault) → Both s → Both (run s ops)
+/-- `LegacyOK` along a run -/
+def LegacyOKRun : St → List Op → Prop
+  | _, [] => True
+  | s, op :: ops => LegacyOK s op ∧ LegacyOKRun (step s op).1 ops
+
+theorem both_run : ∀ (ops : List Op) (s : St), LegacyOKRun s ops → Both s → Both (run s ops)
   | [], _, _, h => h
   | op :: ops, s, hn, h => by
     simp only [run, List.foldl]
-    exact both_run ops _ (fun o ho => hn o (by simp [ho])) (both_step s op (hn op (by simp)) h)
+    exact both_run ops _ hn.2 (both_step s op hn.1 h)
 
 /-! ## after a worker run nothing is left queued -/
 
@@ -914,7 +1034,7 @@ theorem children_after_run (s : St) (h : Both s) (c p : Nat) (hc : c < s.n) (hp 
   have m2 := b.2.mle p
   have m : (stepRun s).mirror p = 2 := by omega
   have sp := b.1.mirror2 p m
-  exact ⟨he, b.2.J c p (by rw [hn.1]; exact hc) (by rw [hn.2]; exact hpar) he hb sp.1 sp.2⟩
+  exact ⟨he, (b.2.J c p (by rw [hn.1]; exact hc) (by rw [hn.2]; exact hpar) he hb).1 sp.1 sp.2⟩
 
 
 /-! ## settings log: the state builder computes a union -/
